@@ -245,11 +245,16 @@ func (fr *Frame) applyContract(v ssa.Value, ct *Contract, name string, c *ssa.Ca
 		}
 		vc.oblige(oname, "pre", props, vc.pos(in.Pos()), alive, t, r.Expr)
 	}
-	// 1b. the caller's own at_call assertions for this callee
-	if fr.top {
+	// 1b. the at_call assertions of the function under contract for this callee; they also apply to calls made from an
+	// inlined (uncontracted) helper: the clause is then stated over the top frame's locals as of the inlining call
+	atf, atin := fr, in
+	for !atf.top && atf.parent != nil {
+		atf, atin = atf.parent, atf.site
+	}
+	if atf.top {
 		for i, ac := range vc.ct.AtCalls {
 			target, recvName, hasRecv := strings.Cut(ac.Var, "@")
-			if target != name && target != fr.ord(in) {
+			if target != name && (!fr.top || target != fr.ord(in)) {
 				continue
 			}
 			if hasRecv {
@@ -268,23 +273,34 @@ func (fr *Frame) applyContract(v ssa.Value, ct *Contract, name string, c *ssa.Ca
 					}
 					recvName = ln
 				}
-				if idx < 0 || idx >= len(c.Args) || !fr.valueNamed(c.Args[idx], g.currentName(fr.env0.ctx, recvName)) {
+				if idx < 0 || idx >= len(c.Args) {
 					continue
 				}
+				if fr.top {
+					if !fr.valueNamed(c.Args[idx], g.currentName(fr.env0.ctx, recvName)) {
+						continue
+					}
+				} else {
+					// inside a helper the local has another name: compare the value handed over with the top frame's local
+					want, ok := atf.resolveAt(g.currentName(atf.env0.ctx, recvName), atin, st)
+					if !ok || want.String() != fr.val(c.Args[idx]).String() {
+						continue
+					}
+				}
 			}
-			e2 := fr.env0.child()
+			e2 := atf.env0.child()
 			e2.st = st
-			e2.old = fr.env0
+			e2.old = atf.env0
 			e2.where = ac.Line
-			e2.ctx = append(append([]string{}, fr.env0.ctx...), name)
+			e2.ctx = append(append([]string{}, atf.env0.ctx...), name)
 			for k, val := range env.vars {
 				if _, clash := e2.vars[k]; !clash {
 					e2.vars[k] = val
 				}
 				e2.vars["arg_"+k] = val // the callee's parameter, also when the caller has a variable of the same name
 			}
-			e2.resolve = func(nm string) (*Term, bool) { return fr.resolveAt(nm, in, st) }
-			e2.resolveAddr = fr.allocRef
+			e2.resolve = func(nm string) (*Term, bool) { return atf.resolveAt(nm, atin, st) }
+			e2.resolveAddr = atf.allocRef
 			t, err := e2.Parse(ac.Expr)
 			clauseTxt := ac.Expr
 			if err != nil {
@@ -300,7 +316,11 @@ func (fr *Frame) applyContract(v ssa.Value, ct *Contract, name string, c *ssa.Ca
 			if label == "" {
 				label = fmt.Sprintf("%d", i+1)
 			}
-			vc.oblige(fmt.Sprintf("at:%s[%s]", ord, label), "at_call", ac.Props, vc.pos(in.Pos()), alive, t, clauseTxt)
+			aord := ord
+			if !fr.top {
+				aord = fr.oblPref + name
+			}
+			vc.oblige(fmt.Sprintf("at:%s[%s]", aord, label), "at_call", ac.Props, vc.pos(in.Pos()), alive, t, clauseTxt)
 		}
 	}
 	// 2. exit conditions of the caller at terminal calls
